@@ -172,7 +172,7 @@ func c01SharingCases(c *Ctx, r *prng.R) []c01Share {
 	var out []c01Share
 	add := func(name string, dag []Node) { out = append(out, c01Share{name, dag}) }
 	// chains: every cell references the next one m times
-	quickK := []int{5, 8, 12, 16, 20, 24, 32, 41, 50, 60}
+	quickK := []int{5, 8, 12, 16, 24, 32, 48, 60}
 	for k := 5; k <= 60; k++ {
 		for m := 2; m <= 4; m++ {
 			if !c.Thorough() {
@@ -191,7 +191,7 @@ func c01SharingCases(c *Ctx, r *prng.R) []c01Share {
 	// lattices: cell i references i+1 .. i+w
 	for w := 2; w <= 4; w++ {
 		for _, k := range []int{8, 12, 16, 20, 26, 32, 40, 48, 60} {
-			if !c.Thorough() && k != 8 && k != 26 && k != 40 && k != 60 {
+			if !c.Thorough() && k != 8 && k != 26 && k != 60 {
 				continue
 			}
 			add(fmt.Sprintf("lattice%d", w), c01LatticeDag(r, k, w))
@@ -218,7 +218,7 @@ func c01SharingCases(c *Ctx, r *prng.R) []c01Share {
 		name string
 		typ  byte
 	}{{"pruned", 1}, {"library", 2}, {"mproof", 3}, {"mupdate", 4}}
-	nEx := c.Scale(12, 160)
+	nEx := c.Scale(8, 160)
 	for i := 0; i < nEx; i++ {
 		et := types[i%4]
 		mask := uint8(0)
@@ -229,7 +229,7 @@ func c01SharingCases(c *Ctx, r *prng.R) []c01Share {
 		}
 		k := 5 + r.Intn(c.Scale(16, 40))
 		if i == nEx-1 {
-			k = 60
+			k = c.Scale(40, 60)
 		}
 		var base []Node
 		var shape string
@@ -254,13 +254,15 @@ func c01SharingCases(c *Ctx, r *prng.R) []c01Share {
 	return out
 }
 
-func genC01Sharing(c *Ctx, r *prng.R) {
+func genC01Sharing(c *Ctx, r *prng.R, between func(cells int)) {
 	rot := 0
 	for _, sc := range c01SharingCases(c, r) {
+		between(len(sc.dag))
 		// every case: index + cache bits (with or without CRC), and one more
 		// combination, rotating through all eight
 		opts := []int{5 + 2*(rot&1), rot % 8}
-		if opts[1] == opts[0] {
+		if opts[1] == opts[0] || (rot%2 == 1 && len(sc.dag) > 16) {
+			// quick tier: the second combination for every other larger case
 			opts = opts[:1]
 		}
 		if c.Thorough() {
